@@ -127,10 +127,10 @@ def extract(repo=None, all_targets=False, features=None, crate=CRATE, log=None):
             raise RuntimeError("stale fact file: nonce mismatch")
         with open(stamp, "w") as f:
             json.dump({"wall_s": time.time() - t0, "cmd": cmd, "repo": repo, "key": key}, f)
-        # keep the cache small: drop all but the 6 most recent extractions
+        # keep the cache small: drop all but the 16 most recent extractions (parallel scratch-tree runs must not evict each other)
         base = os.path.join(CACHE, "facts")
         ds = sorted((os.path.getmtime(os.path.join(base, d)), d) for d in os.listdir(base))
-        for _, d in ds[:-6]:
+        for _, d in ds[:-16]:
             shutil.rmtree(os.path.join(base, d), ignore_errors=True)
         return out
     finally:
